@@ -6,6 +6,7 @@ package main
 // Larking/Gen/*.lean. Regenerates data and small expression skeletons only.
 
 import (
+	"github.com/gobwas/ws"
 	"encoding/json"
 	"fmt"
 	"go/ast"
@@ -354,9 +355,34 @@ func genCodes(g *genCtx, lean string, facts map[string]interface{}) error {
 	facts["wsGuard"] = wop + " len(" + wtab + ")"
 	facts["twirpNames"] = twirp
 
+	// the WebSocket close reason: `if max := ws.MaxControlFramePayloadSize - 2; len(reason) > max { reason = strings.ToValidUTF8(reason[:max], "") }`.
+	// Without such a statement the cut is gobwas/ws's own (NewCloseFrameBody): 123 bytes, wherever that falls.
+	wsReasonMax, wsRuneSafe := ws.MaxControlFramePayloadSize-2, false
+	if fd := g.funcs["Mux.serveHTTP"]; fd != nil {
+		ast.Inspect(fd.Body, func(n ast.Node) bool {
+			is, ok := n.(*ast.IfStmt)
+			if !ok || is.Init == nil || len(is.Body.List) != 1 {
+				return true
+			}
+			init, cond, body := nodeSrc(g, is.Init), nodeSrc(g, is.Cond), strings.Join(strings.Fields(nodeSrc(g, is.Body.List[0])), " ")
+			if init == "max := ws.MaxControlFramePayloadSize - 2" && cond == "len(reason) > max" {
+				switch body {
+				case `reason = strings.ToValidUTF8(reason[:max], "")`:
+					wsRuneSafe = true
+				case "reason = reason[:max]":
+				default:
+					g.miss("close-reason cut: " + body)
+				}
+			}
+			return true
+		})
+	} else {
+		g.miss("func Mux.serveHTTP")
+	}
 	var sb strings.Builder
 	sb.WriteString(genHeader)
 	sb.WriteString("import Larking.Model.Status\nnamespace Larking.Gen\nopen Larking.Status\n\n")
+	fmt.Fprintf(&sb, "/-- the WebSocket close reason: bytes kept of a long status message, and whether the cut is moved to a rune boundary. -/\ndef wsReasonMax : Nat := %d\ndef wsReasonRuneSafe : Bool := %v\n\n", wsReasonMax, wsRuneSafe)
 	fmt.Fprintf(&sb, "/-- code.go `codeToHTTPStatus` (values evaluated by the compiled package). -/\ndef codeToHTTPStatus : List Nat := %s\n\n", leanNatList(httpT))
 	fmt.Fprintf(&sb, "/-- code.go `codeToWSStatus`. -/\ndef codeToWSStatus : List Nat := %s\n\n", leanNatList(wsT))
 	fmt.Fprintf(&sb, "/-- guard of `HTTPStatusCode`: `int(c) %s len(%s)`. -/\ndef httpGuardOp : GuardOp := .%s\ndef httpGuardLen : Nat := %d\n\n", hop, htab, hop, hlen)
